@@ -183,7 +183,7 @@ class State:
             self.reg[base] = ('ins', rw, self.reg[base], t)
 
 
-_MEM = re.compile(r'^(-?\d+|[A-Za-z_.$][\w.$@+\-{}#: ()*<>~]*?)?\((%\w+)(?:\s*,\s*(%\w+)(?:\s*,\s*(\d+))?)?\)$')
+_MEM = re.compile(r'^(-?\d+|[A-Za-z_.${][\w.$@+\-{}#: ()*<>~]*?)?\((%\w+)(?:\s*,\s*(%\w+)(?:\s*,\s*(\d+))?)?\)$')
 
 
 def parse_operand(o):
@@ -221,8 +221,8 @@ def parse_operand(o):
 
 
 class Machine:
-    def __init__(self):
-        pass
+    def __init__(self, raw_rsp=False):
+        self.raw_rsp = raw_rsp      # treat %rsp as an ordinary register (for code that computes with it, e.g. alloca)
 
     # ---- operand access ---------------------------------------------------
     def addr(self, s, op):
@@ -526,12 +526,12 @@ class Machine:
         s.flags = ('res', w, r)
 
     def i_add(self, s, ops, mn='add'):
-        if ops[1] == ('reg', 'rsp'):
+        if ops[1] == ('reg', 'rsp') and not self.raw_rsp:
             return self._rsp(s, ops, +1)
         self._bin(s, ops, mn, 'add', 'add')
 
     def i_sub(self, s, ops, mn='sub'):
-        if ops[1] == ('reg', 'rsp'):
+        if ops[1] == ('reg', 'rsp') and not self.raw_rsp:
             return self._rsp(s, ops, -1)
         self._bin(s, ops, mn, 'sub', 'sub')
 
